@@ -503,10 +503,10 @@ fn pick_opts(rng: &mut Rng, with_tsize: bool) -> Vec<(String, String)> {
 
 fn garbage(rng: &mut Rng) -> Vec<u8> {
     match rng.below(12) {
-        0 => Packet::Ack(rng.below(4) as u16).serialize().unwrap(),
-        1 => Packet::Data { block_num: 1, data: vec![1, 2, 3] }.serialize().unwrap(),
-        2 => Packet::Error { code: tftpd::ErrorCode::DiskFull, msg: "x".into() }.serialize().unwrap(),
-        3 => Packet::Oack(vec![]).serialize().unwrap(),
+        0 => raw_ack(rng.below(4) as u16),
+        1 => raw_data(1, &[1, 2, 3]),
+        2 => raw_error(3, "x"),
+        3 => raw_oack(&[]),
         4 => vec![0, rng.range(7, 255) as u8, 1, 2],
         5 => vec![rng.next() as u8],
         6 => vec![],
